@@ -228,7 +228,7 @@ Lemma sat_not_unsat W p v : Sat W (PNot p) v -> Unsat W p v.
 Proof. unfold Sat, Unsat. cbn. destruct (ev W p v) as [[|]|]; cbn; congruence. Qed.
 
 Ltac int_case :=
-  apply random_ints_safe; intros ? (z & -> & Hz); unfold vint.
+  unfold ints_from, ints_upto; apply random_ints_safe; intros ? (z & -> & Hz); unfold vint.
 Ltac float_case fe :=
   apply random_floats_safe; [|intros ? (q & -> & Hq1 & Hq2); unfold vfloat].
 Ltac dt_case :=
